@@ -197,6 +197,16 @@ impl Property for C01 {
         maybe_unrequested_soft(seed, &mut sc, 6);
         maybe_exempt_soft_family(seed, &mut sc, 10);
         sc.capture_state = true;
+        // cancellation fault on some seeds: whatever comes back as Ok must still be valid
+        let mut fr = Rng::stream(seed, "faults");
+        if fr.chance(1, 8) {
+            sc.spurious_p = 0;
+            let polls = execute(&sc).stats.cancel_polls.max(1);
+            sc.solves[0].cancel = Some(CancelPlan {
+                at_poll: fr.below(polls as usize) as u64,
+                mode: if fr.chance(1, 2) { CancelMode::Transient } else { CancelMode::Persistent },
+            });
+        }
         vec![sc]
     }
     fn judge(&self, sc: &Scenario) -> Verdict {
@@ -834,32 +844,73 @@ impl Property for C07 {
     }
     fn gen(&self, seed: u64, tier: Tier) -> Vec<Scenario> {
         let base = GenParams::conflict_free();
-        vec![std_scenario(seed, &swarm(seed, base, tier), None)]
+        let params = swarm(seed, base, tier);
+        if seed % 4 != 0 {
+            return vec![std_scenario(seed, &params, None)];
+        }
+        // the preference guarantee is not limited to fresh solvers: histories of 2-3 problems on one solver
+        // (earlier solves may have hit exclusions, Unknown dependencies or missing packages)
+        let mut p2 = params.clone();
+        p2.p_excluded = 2;
+        p2.p_unknown = 1;
+        p2.p_missing = 1;
+        let mut wr = Rng::stream(seed, "world");
+        let n = 2 + wr.below(2);
+        let (w, ps) = gen_world(&mut wr, &p2, n);
+        let mut sc = Scenario::basic(w, ps[0].clone());
+        sc.solves = ps.into_iter().map(|p| SolveSpec { problem: p, cancel: None }).collect();
+        let mut cr = Rng::stream(seed, "config");
+        gen_config(&mut cr, &mut sc, None);
+        sc.activity = gen_activity(&mut cr);
+        sc.hash_salt = Rng::stream(seed, "hash_salt").next_u64();
+        vec![sc]
     }
     fn judge(&self, sc: &Scenario) -> Verdict {
-        let p = hard_only(&sc.solves[0].problem);
-        let fc = first_choice(&sc.world, &p, &[]);
-        if !fc.consistent_exclusive || !sc.solves[0].problem.soft.is_empty() {
+        // which solves meet the precondition?
+        let fcs: Vec<Option<reference::FirstChoice>> = sc
+            .solves
+            .iter()
+            .map(|s| {
+                if !s.problem.soft.is_empty() || s.cancel.is_some() {
+                    return None;
+                }
+                let fc = first_choice(&sc.world, &hard_only(&s.problem), &[]);
+                if fc.consistent_exclusive {
+                    Some(fc)
+                } else {
+                    None
+                }
+            })
+            .collect();
+        if fcs.iter().all(|f| f.is_none()) {
             let mut v = Verdict::default();
             v.skipped_pre = true;
             return v;
         }
         let rec = execute(sc);
         let mut v = base_verdict(sc, &rec);
-        match &rec.outcomes[0] {
-            Outcome::Ok(s) => {
-                v.evaluated = true;
-                v.nontrivial = s.len() >= 3;
-                let set: BTreeSet<u32> = s.iter().copied().collect();
-                if set != fc.set {
-                    v.violate("not-first-choice", format!("returned {s:?}, first-choice closure is {:?}", fc.set));
+        for (i, o) in rec.outcomes.iter().enumerate() {
+            let Some(fc) = &fcs[i] else { continue };
+            match o {
+                Outcome::Ok(s) => {
+                    v.evaluated = true;
+                    if s.len() >= 3 {
+                        v.nontrivial = true;
+                    }
+                    let set: BTreeSet<u32> = s.iter().copied().collect();
+                    if set != fc.set {
+                        v.violate("not-first-choice", format!("solve #{i} returned {s:?}, first-choice closure is {:?}", fc.set));
+                    }
+                }
+                Outcome::Unsolvable(_) => {
+                    v.evaluated = true;
+                    v.violate("first-choice-unsolvable", format!("solve #{i}: Unsolvable although the first-choice closure {:?} is a valid selection", fc.set));
+                }
+                _ => {
+                    v.aborted_other = true;
+                    break;
                 }
             }
-            Outcome::Unsolvable(_) => {
-                v.evaluated = true;
-                v.violate("first-choice-unsolvable", format!("Unsolvable although the first-choice closure {:?} is a valid selection", fc.set));
-            }
-            _ => v.aborted_other = true,
         }
         v
     }
